@@ -18,6 +18,7 @@ def run(prog: Program, rep: Report, include_mixins: bool = True):
     r1_newline(prog, rep, fam)
     r2_cursor(prog, rep, fam, include_mixins)
     r3_terminator(prog, rep, fam)
+    r3b_raw_reader(prog, rep, fam)
     r4_dispatch(prog, rep, fam)
     r5_index(prog, rep, fam)
 
@@ -209,6 +210,46 @@ def r3_terminator(prog, rep: Report, fam: Family):
                       "; ".join(why) + f": {src(r.value)}",
                       scenario="a line 'x  ' or 'x\\r' (binary index: terminator is '\\n' only) loses its trailing "
                                "blanks / carriage return", line=r.lineno)
+
+
+def r3b_raw_reader(prog, rep: Report, fam: Family):
+    """every raw line read goes through seek + the (checked) next-line reader; direct slicing of the handle is examined"""
+    seen = set()
+    for c in fam.line_classes:
+        f = prog.resolve(c, "_read_line")
+        if f is None or f in seen or f.is_abstract:
+            continue
+        seen.add(f)
+        rep.fn(f)
+        handles = fam.handles[c.qual]
+        direct = []
+        for n in walk_own(f.node):
+            if isinstance(n, ast.Subscript) and isinstance(n.ctx, ast.Load):
+                d = dotted(n.value)
+                if d and len(d) == 2 and d[0] == f.self_name and d[1] in handles:
+                    direct.append(n)
+            if isinstance(n, ast.Call) and isinstance(n.func, ast.Attribute) and n.func.attr in ("read", "readlines", "readline"):
+                d = dotted(n.func.value)
+                if d and len(d) == 2 and d[0] == f.self_name and d[1] in handles:
+                    direct.append(n)
+        rets = returns_of(f.node)
+        delegates = bool(rets) and all(isinstance(r.value, ast.Call) and isinstance(r.value.func, ast.Attribute)
+                                       and r.value.func.attr == "_read_next_line" and isinstance(r.value.func.value, ast.Name)
+                                       and r.value.func.value.id == f.self_name for r in rets)
+        if delegates and not direct:
+            rep.ok("C11.R3", f, "raw-reader", "reads through seek + the checked next-line reader")
+            continue
+        bad_find = [n for n in direct if isinstance(n, ast.Subscript) and isinstance(n.slice, ast.Slice) and n.slice.upper is not None
+                    and any(isinstance(x, ast.Call) and isinstance(x.func, ast.Attribute) and x.func.attr in ("find", "index")
+                            for x in ast.walk(n.slice.upper))
+                    and not any(isinstance(t, ast.Compare) and "-1" in src(t) for t in ast.walk(f.node))]
+        if bad_find:
+            rep.viol("C11.R3", f, "raw-reader", f"`{src(bad_find[0])}` slices the mapping up to find(...): find returns -1 when the last "
+                     f"line has no terminator, so the slice drops the last byte of the file",
+                     scenario="file content 'a\\nbb\\nccc' (no final newline) read through a memory-mapped variant: the last line is 'cc'",
+                     line=bad_find[0].lineno)
+        else:
+            rep.unrec("C11.R3", f, "raw-reader", "the raw reader neither delegates to seek + next-line reader nor uses a recognised idiom")
 
 
 # ---------------------------------------------------------------------------------------------- R4
